@@ -63,14 +63,14 @@ def run(v, tier, seed):
         if st["edges_covered"] != st["graph_edges"]: raise vlib.MachineryError("path cover incomplete: %s" % st)
         bf = W("beh%d.ndjson" % int(prefer)); rep = W("rep%d.ndjson" % int(prefer))
         vlib.write_ndjson(bf, [{"id": i, "steps": s} for i, s in enumerate(beh)])
-        rc, out, err = vlib.run([rw, "replay", bf, "1" if prefer else "0", rep], timeout=(400 if tier == "quick" else 2400))
+        rc, out, err = vlib.run([rw, "replay", bf, "1" if prefer else "0", rep], timeout=(1200 if tier == "quick" else 3400))
         if rc != 0: raise vlib.MachineryError("rw replay failed rc=%s: %s %s" % (rc, out[-500:], err[-1500:]))
         rows = vlib.read_ndjson(rep)
         return st, rows, beh[:1] + beh[len(beh) // 2: len(beh) // 2 + 1]
 
     def explore(prefer, iters, nt, nops, ntraces):
         rep = W("ex%d.ndjson" % int(prefer)); tr = W("trace%d.ndjson" % int(prefer))
-        rc, out, err = vlib.run([rw, "explore", str(iters), str(nt), str(nops), str(seed), "1" if prefer else "0", rep, tr, str(ntraces)], timeout=(400 if tier == "quick" else 2400))
+        rc, out, err = vlib.run([rw, "explore", str(iters), str(nt), str(nops), str(seed), "1" if prefer else "0", rep, tr, str(ntraces)], timeout=(1200 if tier == "quick" else 3400))
         if rc != 0: raise vlib.MachineryError("rw explore failed rc=%s: %s %s" % (rc, out[-500:], err[-1500:]))
         rows = vlib.read_ndjson(rep)
         # validate the recorded traces against the specification
